@@ -109,6 +109,13 @@ Theorem C17_int_parsed : forall z,
   (~ (-9223372036854775808 <= z <= 9223372036854775807)%Z -> atoi (Endpoint.Parse.dec z) = None).
 Proof. exact ConfProofs.int_parsed. Qed.
 
+(* ... and "malformed" at full strength: the conversion succeeds exactly on [+-]?[0-9]+ whose value lies inside the
+   width (any other string, or a value outside, makes the getter return the supplied default) *)
+Theorem C17_int_accepts_exactly : forall lo hi s z,
+  parse_int lo hi s = Some z <->
+  exists sign ds, decimal_shape s sign ds /\ z = (if bytes_eqb sign [45%N] then - dval 0 ds else dval 0 ds)%Z /\ (lo <= z <= hi)%Z.
+Proof. exact ConfProofs.parse_int_spec. Qed.
+
 (* ... and the default / empty listings when nothing is written there *)
 Theorem C17_absent_defaults : forall s evs, represents s evs -> forall p v, analysis_path p = Ok v ->
   absent evs (key_of_vec v) ->
@@ -225,6 +232,7 @@ Print Assumptions C17_path_key.
 Print Assumptions C17_lines_exact.
 Print Assumptions C17_value_exact.
 Print Assumptions C17_int_parsed.
+Print Assumptions C17_int_accepts_exactly.
 Print Assumptions C17_absent_defaults.
 Print Assumptions C17_listing_getters.
 Print Assumptions C17_subdomains_exact.
